@@ -12,7 +12,7 @@ CHECKS = {
         "DESIGN.md §5 C01", "Trusted base: the wire-ledger model (written from the BOLT text), scheduler assumptions T1-T6, feature _test_utils.",
         "seeded schedule search, refinement against a reference wire ledger"),
     "C02": ("lnsim", "exploration",
-        "Seeded simulation of a 3-node network with forwarding, async/deferred monitor persistence, crashes with stale manager snapshots and on-chain liquidation on a script-verifying chain model; forwarding-policy oracles at the message seam and a conservation (wealth) oracle over the final UTXO set.",
+        "Seeded simulation of a 3-node network with forwarding, async/deferred monitor persistence, crashes with stale manager snapshots and on-chain liquidation on a script-verifying chain model; forwarding-policy oracles at the message seam (also after the forwarding node changed its policy while senders mix the old and the new one), a dust-exposure oracle against the BOLT-3 reference ledger at every commitment_signed, and a conservation (wealth) oracle over the final UTXO set.",
         "DESIGN.md §5 C02", "Trusted base: chain/mempool model, wallet/sweep code of the harness, T1-T6; known findings listed in known_findings.json are reported, not failed.",
         "seeded schedule and crash search, conservation oracle over the recorded history"),
     "C03": ("lnsim", "exploration",
@@ -28,11 +28,11 @@ CHECKS = {
         "DESIGN.md §5 C05", "Trusted base: the automaton, the signer wrapper (delegates to LDK's TestChannelSigner), T1-T6.",
         "seeded schedule and crash search, safety automaton at the signer seam"),
     "C06": ("lnsim", "exploration",
-        "A cheating node gets one of its archived revoked commitments mined (any age in the history, with seeded subsets of its second-stage HTLC transactions, after quiescence or in the middle of the traffic); the victim's real ChannelMonitor must broadcast consensus-valid justice transactions, re-issue them under confirmation delays, fee moves and shallow reorganisations until buried, and end owning every non-anchor output of the revoked commitment, also across monitor reloads.",
+        "A cheating node gets one of its archived revoked commitments mined (any age in the history, with seeded subsets of its second-stage HTLC transactions, after quiescence or in the middle of the traffic); the victim's real ChannelMonitor must broadcast consensus-valid justice transactions, re-issue them under confirmation delays, fee moves and shallow reorganisations until buried, and end owning every non-anchor output of the revoked commitment, also across monitor reloads. A second job enumerates the revoked-state index: one seeded history is replayed once per revoked commitment of either side of every channel.",
         "DESIGN.md §5 C06", "Trusted base: chain model (libbitcoinconsensus script verification), T1-T5; the cheater is harness code using LDK's test-only accessor for old commitment transactions.",
         "seeded history/fault search with a Byzantine peer, conservation oracle"),
     "C07": ("lnsim", "exploration",
-        "Every transaction the real nodes hand to the broadcaster is verified by libbitcoinconsensus against the simulated UTXO set, with locktime/BIP68 finality, mempool/RBF rules and fee monotonicity checks; SpendableOutputs are swept with the node's own keys and balances must drain.",
+        "Every transaction the real nodes hand to the broadcaster is verified by libbitcoinconsensus against the simulated UTXO set, with locktime/BIP68 finality, mempool/RBF rules and fee monotonicity checks; SpendableOutputs are swept with the node's own keys and balances must drain. A second simulator (blobsim/sweeper) runs the real OutputSweeper over a fault-injecting KV store, a reorganising chain and crashes at every store operation: tracked outputs are never lost or pruned early and are all swept once faults stop.",
         "DESIGN.md §5 C07", "Trusted base: chain/mempool model, T1-T5; LDK debug assertions in the claim machinery are treated as oracle failures.",
         "seeded schedule search over force-close points, block timing and fee changes; consensus-validity oracle"),
     "C08": ("lnsim", "exploration",
@@ -52,7 +52,7 @@ CHECKS = {
         "DESIGN.md §5 C11", "Trusted base: delivery-style drivers follow the documented Confirm/Listen ordering rules; T4 (reorg < ANTI_REORG_DELAY).",
         "seeded search over delivery styles and reorgs, cross-style agreement oracle"),
     "C12": ("lnsim", "exploration",
-        "At seeded points of realistic runs every monitor, monitor update and the manager are written and read back and compared (LDK's own field-wise equality under hook H3), then read again through a fault-injecting reader (truncation, io errors, bit flips) which must fail cleanly.",
+        "At seeded points of realistic runs every monitor, monitor update and the manager are written and read back and compared (LDK's own field-wise equality under hook H3), then read again through a fault-injecting reader (truncation, io errors, bit flips) which must fail cleanly; the reloaded manager keeps pending events with their completion actions, balances and limits. The network graph (gossipsim), ProbabilisticScorer / CombinedScorer under simulated time and the OutputSweeper under storage faults and crashes (blobsim) are written, read back, compared by observable state and driven on in lock-step.",
         "DESIGN.md §5 C12", "Trusted base: equality hook H3 (derived PartialEq of the monitor), harness comparison of manager-visible state.",
         "seeded state sampling with storage fault injection, round-trip oracle"),
     "C13": ("codecsim", "exploration",
@@ -125,7 +125,7 @@ def main():
             "guard": "ldk_verif",
             "enable": "RUSTFLAGS=\"--cfg ldk_verif\" (set in /verif/sim/.cargo/config.toml and /verif/sim-store/.cargo/config.toml; cfg declared in /repo/Cargo.toml check-cfg list)",
             "baseline_off_cmd": "cd /repo && cargo nextest run --workspace --no-fail-fast --offline --test-threads 8",
-            "source_commits": ["d85b81c", "9310919", "a7eb0e1", "a6088b8"],
+            "source_commits": ["d85b81c", "9310919", "a7eb0e1", "a6088b8", "862268d"],
             "add_only": False,
         },
         "engines": [
